@@ -60,9 +60,10 @@ def val(v):
 def q(book, sheet, home):
     """qualification of a reference as seen from home=(book, sheet)."""
     if book != home[0]:
-        return "'[%s]%s'!" % (book, sheet)
+        return "'[%s]%s'!" % (book, sheet.replace("'", "''"))
     if sheet != home[1]:
-        return "%s!" % sheet if re.fullmatch(r'[A-Za-z_]\w*', sheet) else "'%s'!" % sheet
+        plain = re.fullmatch(r'[A-Za-z_]\w*', sheet) and not re.fullmatch(r'(?i)[A-Z]{1,3}\d+|TRUE|FALSE|R\d*C\d*', sheet)
+        return "%s!" % sheet if plain else "'%s'!" % sheet.replace("'", "''")
     return ''
 
 
@@ -419,3 +420,24 @@ def solve(spec, overrides=None, **kw):
     for k in env.circ:
         out[k] = CIRC
     return out, env
+
+
+def rename_sheets(spec, mapping):
+    """structural rename of sheets: mapping {(book, old): new}."""
+    def rk(k):
+        parts = k.split('|')
+        if len(parts) == 3 and (parts[0], parts[1]) in mapping:
+            parts[1] = mapping[(parts[0], parts[1])]
+        return '|'.join(parts)
+
+    def rn(n):
+        if isinstance(n, list):
+            if n and n[0] in ('cell', 'rng', 'col') and (n[1], n[2]) in mapping:
+                return [n[0], n[1], mapping[(n[1], n[2])]] + [rn(x) for x in n[3:]]
+            return [rn(x) for x in n]
+        return n
+    out = {'cells': {rk(k): rn(v) for k, v in spec.get('cells', {}).items()},
+           'arrays': {rk(k): rn(v) for k, v in spec.get('arrays', {}).items()},
+           'names': {k: rn(v) for k, v in spec.get('names', {}).items()},
+           'sheets': [[b, mapping.get((b, s), s)] for b, s in spec.get('sheets', [])]}
+    return out
